@@ -31,6 +31,7 @@ EXPLANATION = (
     "getter reads, DoD through the same involution 100 - x on both sides. Device state after the write sequence is not decided."
     " (R7) read_setting asks the inverter on every path that returns a value derived from the object's state (no remembered answers), so a getter after a setter sees the new value."
     " (R8) valid arguments are accepted: a setter path that ends without a write is infeasible for power 1..100, SoC 0..100, DoD 0..100, export limit >= 0; (R3 switch-offset) eco_mode_N_switch is the on_off byte of eco_mode_N; (R4) the recognisers' power bound admits the group encoded for 1 %."
+    ' (R4 :soc) the soc field of the charge template is the SoC argument itself.'
 )
 
 
@@ -712,6 +713,14 @@ def r4(ctx: Ctx, rep: Report):
                 problems += _check_conjunct(prog, enc, cj, lay, fields, kind)
             rep.check(not problems, "C19.R4", key, enc.loc(), "%s.encode_%s satisfies every conjunct of is_eco_%s_mode" % (cname, kind, kind),
                       bad="%s.encode_%s produces a group that is_eco_%s_mode does not recognise: %s" % (cname, kind, kind, "; ".join(problems)))
+            # the SoC the caller asked for is the SoC field of the group, unconditionally (0 is a valid request)
+            if kind == "charge" and "soc" in fields:
+                fv = field_value(lay, *fields["soc"])
+                sp = enc.params[2] if len(enc.params) > 2 else None
+                oks = fv is not None and fv[0] == "expr" and isinstance(fv[1], ast.Name) and fv[1].id == sp
+                rep.check(oks, "C19.R4", key + ":soc", enc.loc(), "%s.encode_charge puts its SoC argument into the soc field" % cname,
+                          bad="%s.encode_charge: the soc field of the group is %s, not the requested SoC %s: the group does not decode to the SoC that was set (0 is a valid request)" % (
+                              cname, norm(fv[1]) if fv is not None and fv[0] == "expr" else (fv[1] if fv else "missing"), sp))
             # the fixed fields also pass read_value's own range checks (00:00 - 23:59)
             rng = []
             for attr, (lo, hi) in (("start_h", (0, 23)), ("start_m", (0, 59)), ("end_h", (0, 23)), ("end_m", (0, 59))):
